@@ -125,3 +125,35 @@ def enc(v):
   if isinstance(v, bool): return int(v)
   if isinstance(v, (list, tuple, dict)): return json.dumps(v)
   return v
+
+
+# ---------------------------------------------------------------------------------------------------------
+# Harness-side accelerator (documented in DESIGN 1): LogicaProgram.__init__ re-parses the unchanging dialect
+# library text on every construction (0.10 s of a 0.13 s compile).  The first parse of a given library text in a
+# worker is the real one; later calls with the *same text* (and the same parser selection / experimental-syntax
+# switch) get a fresh unpickled copy of that result.  User programs are always parsed for real.  Not used by the
+# checks that examine the parser or history-freeness themselves (C06, C12, C13, C15).
+_LIBCACHE = {}
+_ORIG_PARSEFILE = None
+
+
+def accelerate_library_parse():
+  global _ORIG_PARSEFILE
+  import pickle
+  if os.environ.get('VERIF_NO_LIBCACHE'): return
+  p = M('parser_py.parse'); d = M('compiler.dialects')
+  if _ORIG_PARSEFILE is not None: return
+  libs = set()
+  for name in list(getattr(d, 'DIALECTS', {})):
+    try: libs.add(d.Get(name).LibraryProgram())
+    except Exception: pass
+  orig = p.ParseFile
+  _ORIG_PARSEFILE = orig
+  def ParseFile(content, *a, **k):
+    if content in libs and not a and not k:
+      key = (content, getattr(p, 'TOO_MUCH', None), os.environ.get('LOGICA_PARSER'))
+      if key not in _LIBCACHE:
+        _LIBCACHE[key] = pickle.dumps(orig(content))
+      return pickle.loads(_LIBCACHE[key])
+    return orig(content, *a, **k)
+  p.ParseFile = ParseFile
